@@ -33,6 +33,7 @@ def run(ctx):
                        "projected tree is decided by TLC (AppendOK). T: random base + chain of 1..4 appends. "
                        "non-trivial = the base already has sub-trickles (n > w) so the append path descends")
     q = ctx.quick
+    ctx.open_devs()          # load the known findings before any worker thread asks for them
     ctx.specdir(SPEC)
     cfg = c07.write_gen_cfg(ctx, "gen_append.cfg", Kind='"append"', GN=60, GM=60, GWidths=c07.tset([2, 3, 4]),
                             PartSel=ctx.seed % 7, SmallN=16 if q else 60, SmallM=12 if q else 60, SmallW=2,
